@@ -161,6 +161,32 @@ def computeSequenceInf (lq : LQ α) (F : M α) (ts : Nat) (x0 W : M α) : SeqOut
   | none => .indexError
   | some (xs, us) => .ok xs us
 
+/-! ### evaluation of a linear rule (the quantities of the optimality identities; spec side) -/
+
+/-- `x'Mx` for an `n × 1` column `x` -/
+def quadM (Mx x : M α) : α := (mmul (mT x) (mmul Mx x)).get 0 0
+/-- `u'Nx` -/
+def crossM (u N x : M α) : α := (mmul (mT u) (mmul N x)).get 0 0
+/-- the one-period loss `x'Rx + u'Qu + 2u'Nx` -/
+def stageM (lq : LQ α) (x u : M α) : α := quadM lq.R x + quadM lq.Q u + (1 + 1) * crossM u lq.N x
+/-- `A x + B u` (no shock) -/
+def stepM (lq : LQ α) (x u : M α) : M α := madd (mmul lq.A x) (mmul lq.B u)
+
+/-- discounted cost of the rule `u = -G x` over `T` periods from `x` -/
+def ruleCostM (lq : LQ α) (G : M α) : Nat → M α → α
+  | 0, _ => 0
+  | T + 1, x => stageM lq x (ctrl G x) + lq.beta * ruleCostM lq G T (stepM lq x (ctrl G x))
+
+/-- `Σ_{t<T} β^t ((F-G)x_t)' S1 ((F-G)x_t)` along the closed loop of `G` -/
+def ruleGapM (lq : LQ α) (S1 F G : M α) : Nat → M α → α
+  | 0, _ => 0
+  | T + 1, x => quadM S1 (mmul (msub F G) x) + lq.beta * ruleGapM lq S1 F G T (stepM lq x (ctrl G x))
+
+/-- the state `x_T` and the factor `β^T` -/
+def ruleEndM (lq : LQ α) (G : M α) : Nat → M α → α → M α × α
+  | 0, x, b => (x, b)
+  | T + 1, x, b => ruleEndM lq G T (stepM lq x (ctrl G x)) (b * lq.beta)
+
 /-! ### the LQ object: `P`, `d`, `F` are carried across calls -/
 
 /-- an `LQ` instance: the data, `self.T` (`0` = `None`), `self.Rf`, and the mutable attributes
@@ -577,6 +603,20 @@ def handleG (pm : String → Option (List (List β))) (ps : String → Option β
         | none => "bad-op"
         | some l => if l.isEmpty then "-" else " ".intercalate l
     | _, _, _ => "bad-op"
+  | "rulecost" :: r =>
+    -- cost of the rules F and G over T periods, the completed squares and the discounted tails, for given P
+    match parseLQ pm ps r, (kv r "P").bind pm, (kv r "F").bind pm, (kv r "G").bind pm, kvNat r "T", (kv r "x0").bind pm with
+    | some lq, some P, some F, some G, some T, some x0 =>
+      if shape P lq.R.nr lq.R.nr && shape F lq.Q.nr lq.R.nr && shape G lq.Q.nr lq.R.nr && shape x0 lq.R.nr 1 && T ≤ 64 then
+        let P := matOf P
+        let F := matOf F
+        let G := matOf G
+        let x0 := matOf x0
+        let eG := ruleEndM lq G T x0 1
+        let eF := ruleEndM lq F T x0 1
+        s!"costG={sd (ruleCostM lq G T x0)} costF={sd (ruleCostM lq F T x0)} gap={sd (ruleGapM lq (lqS1 lq P) F G T x0)} tailG={sd (eG.2 * quadM P eG.1)} tailF={sd (eF.2 * quadM P eF.1)} v0={sd (quadM P x0)}"
+      else "bad-op"
+    | _, _, _, _, _, _ => "bad-op"
   | "rblqd" :: r =>
     match (kv r "C").bind pm, (kv r "theta").bind ps, (kv r "P").bind pm with
     | some C, some th, some P =>
